@@ -95,6 +95,7 @@ type ReadSpec struct {
 	Max       int      `json:"max,omitempty"`
 	NoColor   bool     `json:"no_color"`
 	LogLevel  string   `json:"log_level,omitempty"` // client log level ("" = default info)
+	AskHosts  bool     `json:"ask_hosts,omitempty"` // do not pass --trustAllHosts: unknown host keys are prompted for
 }
 
 // MakeReadClient builds the ClientProc for a ReadSpec.
@@ -121,7 +122,7 @@ func (w *World) MakeReadClient(spec ReadSpec, keyPath string) *ClientProc {
 	if spec.Transport == "ssh" {
 		a.ServersStr = strings.Join(spec.Hosts, ",")
 		a.SSHPrivateKeyFilePath = keyPath
-		a.TrustAllHosts = true
+		a.TrustAllHosts = !spec.AskHosts
 	}
 	return &ClientProc{Kind: spec.Kind, Args: a}
 }
